@@ -1,7 +1,7 @@
 #!/usr/bin/env python3
 """Confirm a candidate seeded change and file it under /verif/seeded/<name>/.
 
-usage: confirm_seed.py <src_dir> <seed_name> <property_id>
+usage: confirm_seed.py <src_dir> <seed_name> <property_id> [breaking|harmless]
   src_dir holds patch.diff, demo_test.go, notes.md (written by a sub-agent).
 
 Checks, in a throw-away worktree of /repo HEAD under /tmp (removed afterwards):
@@ -19,6 +19,7 @@ def run(cmd, cwd, timeout=1200):
 
 def main():
     src, name, prop = sys.argv[1], sys.argv[2], sys.argv[3]
+    kind = sys.argv[4] if len(sys.argv) > 4 else "breaking"
     demo = open(os.path.join(src, "demo_test.go")).read()
     m = re.search(r'([A-Za-z_/]*zz_demo_test\.go)', demo)
     m2 = re.search(r'(go test[^`\n]*)', demo)
@@ -42,7 +43,10 @@ def main():
             print("suite fails with patch:\n", out[-2000:]); return 1
         shutil.copy(os.path.join(src, "demo_test.go"), os.path.join(wt, rel))
         rc, out = run(cmd, wt)
-        res["demo_fails_with_patch"] = rc != 0
+        if kind == "harmless":
+            res["demo_passes_with_patch"] = rc == 0
+        else:
+            res["demo_fails_with_patch"] = rc != 0
         demo_out_with = out[-1500:]
         run("git checkout -- . ", wt)
         rc, out = run(cmd, wt)
@@ -59,6 +63,7 @@ def main():
         meta = {
             "property": prop,
             "seed": name,
+            "kind": kind,
             "repo_head": head,
             "demo_location": rel,
             "demo_cmd": cmd,
@@ -67,7 +72,7 @@ def main():
             "what_was_run": [
                 "git worktree add --detach <scratch> HEAD; git apply patch.diff",
                 "go build ./... && go test -count=1 ./...   (all packages ok with the patch)",
-                "copy demo_test.go to %s; %s   (fails with the patch)" % (rel, cmd),
+                "copy demo_test.go to %s; %s   (%s with the patch)" % (rel, cmd, "passes" if kind == "harmless" else "fails"),
                 "git checkout -- .; %s   (passes without the patch)" % cmd,
                 "git worktree remove --force <scratch>",
             ],
